@@ -734,6 +734,13 @@ func (s *Server) filterBatchLocked(next jmessages) jmessages {
 			delete(s.call, id)
 			rsp.ch <- req
 			s.log("Received response for callback %q", id)
+		} else if s.allowP && req.M == "" && (req.R != nil || req.E != nil) {
+			// A reply to a callback that is no longer pending: late (the
+			// callback already timed out or was cancelled), duplicated, or
+			// unsolicited. Discard it. Answering it with an error would put a
+			// response carrying that ID on the wire, which the client would
+			// match to its own call with the same ID (both sides count from 1).
+			s.log("Discarding response for unknown callback %q", id)
 		} else {
 			keep = append(keep, req)
 		}
